@@ -28,7 +28,8 @@ static bool fin (double x) { return std::isfinite (x); }
 template<unsigned N> void jacobi_real (Args& A, Out& O, bool oracle)
 {
   Matrix<N,N,double> a; for (unsigned i=0;i<N;i++) for (unsigned j=i;j<N;j++) { a[i][j] = rdD(A); a[j][i] = a[i][j]; }
-  Matrix<N,N,double> a0 = a; Matrix<N,N,double> ev; Vector<N,double> ew;
+  // the output arguments arrive with stale content (as when the caller re-uses them): the solver must overwrite all of it
+  Matrix<N,N,double> a0 = a; Matrix<N,N,double> ev; Vector<N,double> ew; if (oracle) { for (unsigned i=0;i<N;i++) { ew[i] = -7.5; for (unsigned j=0;j<N;j++) ev[i][j] = 3.25 + i - 0.5*j; } }
   Jacobi (a, ev, ew);
   if (!oracle) { for (unsigned i=0;i<N;i++) putD (O, ew[i]); for (unsigned i=0;i<N;i++) for (unsigned j=0;j<N;j++) putD (O, ev[i][j]); return; }
   long double nrm = 0; for (unsigned i=0;i<N;i++) for (unsigned j=0;j<N;j++) nrm += (long double)a0[i][j]*a0[i][j]; nrm = sqrtl (nrm);
@@ -44,7 +45,7 @@ template<unsigned N> void jacobi_real (Args& A, Out& O, bool oracle)
 template<unsigned N> void jacobi_complex (Args& A, Out& O, bool oracle)
 {
   Matrix<N,N,CD> a; for (unsigned i=0;i<N;i++) { a[i][i] = CD (rdD(A), 0.0); for (unsigned j=i+1;j<N;j++) { a[i][j] = rdC(A); a[j][i] = std::conj (a[i][j]); } }
-  Matrix<N,N,CD> a0 = a; Matrix<N,N,CD> ev; Vector<N,double> ew;
+  Matrix<N,N,CD> a0 = a; Matrix<N,N,CD> ev; Vector<N,double> ew; if (oracle) { for (unsigned i=0;i<N;i++) { ew[i] = -7.5; for (unsigned j=0;j<N;j++) ev[i][j] = CD (3.25 + i - 0.5*j, 1.0 - j); } }
   Jacobi (a, ev, ew);
   if (!oracle) { for (unsigned i=0;i<N;i++) putD (O, ew[i]); for (unsigned i=0;i<N;i++) for (unsigned j=0;j<N;j++) putC (O, ev[i][j]); return; }
   long double nrm = 0; for (unsigned i=0;i<N;i++) for (unsigned j=0;j<N;j++) nrm += (long double) std::norm (a0[i][j]); nrm = sqrtl (nrm);
